@@ -20,7 +20,8 @@ for k in sorted(known, key=lambda k: k['property']):
 t14 = ["| seeded change | property | what it needs to manifest | caught by the registered quick check? |", "|---|---|---|---|"]
 for m in sorted(glob.glob('/verif/seeded/*/meta.json')):
     j = json.load(open(m)); n = os.path.basename(os.path.dirname(m))
-    needs = re.sub(r'\s+', ' ', j.get('what_it_needs_to_manifest', ''))[:260].replace('|', '\\|')
+    needs = re.sub(r'\s+', ' ', j.get('what_it_needs_to_manifest', ''))
+    needs = re.sub(r'^#+ *What it needs( in order)? to manifest *', '', needs, flags=re.I)[:260].replace('|', '\\|')
     res = ("yes — " + "; ".join(j.get('violation_classes', [])[:2])) if j.get('caught') else "NO (see note)"
     if j.get('caught') and j.get('missed_before_strengthening'): res = "yes, after strengthening (missed by the check as first built) — " + res[6:]
     if j.get('note'): res += " — " + j['note'][:200]
